@@ -489,3 +489,51 @@ Proof.
   - destruct w as [|w]; reflexivity.
   - destruct w as [|w]; reflexivity.
 Qed.
+
+(** ** The same statements for every state reached by any interleaving from the initial state *)
+
+Section Reach.
+Variable p : prog.
+Hypothesis WF : wf_items p = true.
+Hypothesis BF : bfun_ok p.
+
+Lemma reach fx tr s : run fx p init tr = Some s -> exists m, Inv p s /\ Sim p s m.
+Proof. intro R. destruct (run_refines p WF BF fx tr s R) as [m [_ [IV SM]]]. eauto. Qed.
+
+Theorem deadlock_free_run fx tr s :
+  run fx p init tr = Some s -> st_phase s <> PEnded ->
+  exists l s', forced l = true /\ step fx p s l = Some s'.
+Proof. intros R NE. destruct (reach fx tr s R) as [m [IV _]]. now apply (deadlock_free p WF BF). Qed.
+
+Theorem completes_run fx tr s :
+  run fx p init tr = Some s ->
+  exists tr' s', Forall (fun l => forced l = true) tr' /\ run fx p init (tr ++ tr') = Some s' /\ st_phase s' = PEnded.
+Proof.
+  intros R. destruct (reach fx tr s R) as [m [IV SM]].
+  destruct (completes p WF BF fx (measure p s) s m (le_n _) IV SM) as [tr' [s' [F [R' PE]]]].
+  exists tr', s'. repeat split; auto. apply run_app. eauto.
+Qed.
+
+Theorem no_leak_run tr s w :
+  run true p init tr = Some s -> st_phase s = PEnded -> active (st_gor s w) ->
+  exists l s', own_label w l /\ step true p s l = Some s' /\ st_phase s' = PEnded.
+Proof. intros R PE AC. destruct (reach true tr s R) as [m [IV _]]. now apply (no_leak p). Qed.
+
+Theorem drains_run tr s :
+  run true p init tr = Some s -> st_phase s = PEnded ->
+  exists tr' s', run true p init (tr ++ tr') = Some s' /\ st_phase s' = PEnded /\ forall w, ~ active (st_gor s' w).
+Proof.
+  intros R PE. destruct (reach true tr s R) as [m [IV SM]].
+  destruct (drains p WF BF (measure p s) s m (le_n _) IV SM PE) as [tr' [s' [R' [PE' NA]]]].
+  exists tr', s'. repeat split; auto. apply run_app. eauto.
+Qed.
+
+End Reach.
+
+Theorem leak_refuted_before_fix :
+  exists p tr s w r, wf_items p = true /\ bfun_ok p /\ run false p init tr = Some s /\ st_phase s = PEnded /\
+                     st_gor s w = GParked r /\ forall l, step false p s l = None.
+Proof.
+  destruct leak_before_fix as [s [R [PE [G Q]]]].
+  exists leak_prog, leak_trace, s, 0, (ROk 7). repeat split; auto using leak_prog_wf, leak_prog_bf.
+Qed.
